@@ -86,3 +86,39 @@ Print Assumptions C10_pwl_plottable.
 
 Example C10_nonvacuous : wf_pwc ([0; 1/4; 1], [1; -2]) /\ wf_pwl ([0; 1/4; 1], [1; 2], [0; 3]).
 Proof. unfold wf_pwc, wf_pwl, wf_x; cbn [fst snd length]; repeat split; try lia; valid_tac. Qed.
+
+(* ---- executed instance (Q, extracted to OCaml and run against /repo) = the real-number functions
+   the theorems above are about: kernel-checked parametricity bridge (Bridge.v).  qL = map Q2R etc. ---- *)
+From Coq Require Import QArith Qreals.
+From PS Require Import Bridge.
+Local Close Scope Q_scope.
+Theorem C10_exec_pwc_integral_transfer : forall (f : pwc) (iv : option (Q * Q)), rmap Q2R (pwc_integral QOps f iv) = pwc_integral ROps (qLL f) (qIv iv).
+Proof. exact pwc_integral_transfer. Qed.
+Print Assumptions C10_exec_pwc_integral_transfer.
+Theorem C10_exec_pwc_avrg_transfer : forall (f : pwc) (iv : ivspec), rmap Q2R (pwc_avrg QOps f iv) = pwc_avrg ROps (qLL f) (ivmap Q2R iv).
+Proof. exact pwc_avrg_transfer. Qed.
+Print Assumptions C10_exec_pwc_avrg_transfer.
+Theorem C10_exec_pwc_call_scalar_transfer : forall (f : pwc) (t : Q), rmap Q2R (pwc_call_scalar QOps f t) = pwc_call_scalar ROps (qLL f) (Q2R t).
+Proof. exact pwc_call_scalar_transfer. Qed.
+Print Assumptions C10_exec_pwc_call_scalar_transfer.
+Theorem C10_exec_pwc_call_seq1_transfer : forall (f : pwc) (t : Q), rmap Q2R (pwc_call_seq1 QOps f t) = pwc_call_seq1 ROps (qLL f) (Q2R t).
+Proof. exact pwc_call_seq1_transfer. Qed.
+Print Assumptions C10_exec_pwc_call_seq1_transfer.
+Theorem C10_exec_pwl_integral_transfer : forall (f : pwl) (iv : option (Q * Q)), rmap Q2R (pwl_integral QOps f iv) = pwl_integral ROps (qLLL f) (qIv iv).
+Proof. exact pwl_integral_transfer. Qed.
+Print Assumptions C10_exec_pwl_integral_transfer.
+Theorem C10_exec_pwl_call_scalar_transfer : forall (f : pwl) (t : Q), rmap Q2R (pwl_call_scalar QOps f t) = pwl_call_scalar ROps (qLLL f) (Q2R t).
+Proof. exact pwl_call_scalar_transfer. Qed.
+Print Assumptions C10_exec_pwl_call_scalar_transfer.
+Theorem C10_exec_pwc_overlap_transfer : forall (xs ys : list Q) (a b : Q), Q2R (pwc_overlap QOps xs ys a b) = pwc_overlap ROps (qL xs) (qL ys) (Q2R a) (Q2R b).
+Proof. exact pwc_overlap_transfer. Qed.
+Print Assumptions C10_exec_pwc_overlap_transfer.
+Theorem C10_exec_pwl_overlap_transfer : forall (xs y1 y2 : list Q) (a b : Q), Q2R (pwl_overlap QOps xs y1 y2 a b) = pwl_overlap ROps (qL xs) (qL y1) (qL y2) (Q2R a) (Q2R b).
+Proof. exact pwl_overlap_transfer. Qed.
+Print Assumptions C10_exec_pwl_overlap_transfer.
+Theorem C10_exec_pwc_eval_transfer : forall (f : list Q * list Q) (t : Q), option_map Q2R (pwc_eval QOps f t) = pwc_eval ROps (qLL f) (Q2R t).
+Proof. exact pwc_eval_transfer. Qed.
+Print Assumptions C10_exec_pwc_eval_transfer.
+Theorem C10_exec_pwl_eval_transfer : forall (f : list Q * list Q * list Q) (t : Q), option_map Q2R (pwl_eval QOps f t) = pwl_eval ROps (qLLL f) (Q2R t).
+Proof. exact pwl_eval_transfer. Qed.
+Print Assumptions C10_exec_pwl_eval_transfer.
